@@ -116,7 +116,7 @@ EXTRA = {
  "C15": ("; oracle error preservation", " Also: a failed oracle read fails the lock operation (R5) and the TiKV oracle is the fresh PD timestamp (R6)."),
  "C16": ("", " Also: the failure-branch re-read names no revision, the Range answer is the complete snapshot (C13-R5/R6/R8), handed-over batches are not overwritten (C05-R9)."),
  "C17": ("; TTL operand provenance", " Also: every TTL operand reaching an engine batch is 0 or the classified create's TTL, expiry deletes follow the failed-delete discipline with the user key (C07-R4), and the scanner reaches the event pipeline through no call chain."),
- "C19": ("; escape-based confinement; verified singleflight confinement; self-deadlock", " Also: objects that never escape their goroutine need no table entry, the singleflight confinement of the syncer's scheme field is verified, and no mutex is re-acquired while held (R5)."),
+ "C19": ("; escape-based confinement; fork/join confinement; verified singleflight confinement; self-deadlock", " Also: objects that never escape their goroutine need no table entry, fork/join task objects (writes by goroutines that defer Done, other accesses only after Wait) are proved, the singleflight confinement of the syncer's scheme field is verified, and no mutex is re-acquired while held (R5)."),
  "C20": ("; explicit aborts by reachability from request entry points; request-sized allocations; label-value sanitising", " Also: explicit aborts are judged by reachability from request entry points and role (no name table), diverging tag lists kept in fields are violations, no allocation is sized by an unbounded request integer (R5), label values reach prometheus only sanitised (R6), no self-deadlock (R7)."),
 }
 for _pid, (_t, _x) in EXTRA.items():
